@@ -17,8 +17,8 @@ VERDICT = "fun i o => parse_verdict cfg (snd i) o"
 SPEC = "fun i o => C03_spec (fst i) o"
 
 
-def make_case(R, tm, groups, lines):
-    text = chart_text(res=R, sync=["0 = TS 4"] + tempo_lines(tm), tracks=[("ExpertSingle", lines)])
+def make_case(R, tm, groups, lines, layout=None):
+    text = laid_out(chart_text(res=R, sync=["0 = TS 4"] + tempo_lines(tm), tracks=[("ExpertSingle", lines)]), layout)
     ch, exc, out = parse_case(text)
     les, qs, last = [], [], "None"
     crossing = False
@@ -50,7 +50,7 @@ def make_case(R, tm, groups, lines):
     gterm = coq_list("(%s, %s)" % (coq_Z(g["tick"]), coq_list("(%s, %s)" % (coq_Z(i), coq_Z(l)) for i, l in g["lines"])) for g in groups)
     diff = any(len({l for i, l in g["lines"] if i < 5}) >= 2 for g in groups)
     flaglen = any(l > 0 for g in groups for i, l in g["lines"] if i in (5, 6))
-    return dict(case=dict(R=R, tm=[list(x) for x in tm], groups=groups, lines=lines, text=text),
+    return dict(case=dict(R=R, tm=[list(x) for x in tm], groups=groups, lines=lines, layout=layout, text=text),
                 in_term="((true, %s, %s, %s, %s), %s)" % (gterm, coq_list(les), coq_list(qs), last, parse_in_term(text)),
                 out_term=out, nontrivial=diff or flaglen or crossing,
                 tags=["different_lengths" if diff else "uniform", "flag_len" if flaglen else "flag0", "crossing" if crossing else "no_crossing",
@@ -84,7 +84,7 @@ def cases(ctx, n):
     rng = ctx["rng"]
     out = [make_case(*f) for f in fixed_cases()]
     for c in load_corpus("C03"):
-        out.append(make_case(c["R"], [tuple(x) for x in c["tm"]], c["groups"], c["lines"]))
+        out.append(make_case(c["R"], [tuple(x) for x in c["tm"]], c["groups"], c["lines"], c.get("layout")))
     while len(out) < n:
         R = rng.choice([192, 192, 480, 100, 7])
         groups = ig.gen_groups(rng, R, rng.choice([1, 2, 3, 5, 9]), flag_len=True)
@@ -100,13 +100,13 @@ def cases(ctx, n):
             # numerals with leading zeros / non-ASCII digits: the written length is the VALUE of the numeral
             lines = [(ig.zero_pad(rng, l) if rng.random() < 0.6 else ig.exotic_line(rng, l)) if rng.random() < 0.6 else l for l in lines]
         tm = ig.gen_tempo(rng, R, groups[-1]["tick"] + 2 * R)
-        out.append(make_case(R, tm, groups, lines))
+        out.append(make_case(R, tm, groups, lines, pick_layout(rng)))
     return out
 
 
 def run(ctx, only=None):
     if only:
-        cs = [make_case(c["R"], [tuple(x) for x in c["tm"]], c["groups"], c["lines"]) for c in only if c]
+        cs = [make_case(c["R"], [tuple(x) for x in c["tm"]], c["groups"], c["lines"], c.get("layout")) for c in only if c]
     else:
         cs = cases(ctx, 200 if ctx["tier"] == "quick" else 5000)
     return run_cases("C03", cs, IN_TYPE, PARSE_OUT, VERDICT, SPEC, shard_size=25)
